@@ -178,7 +178,7 @@ partial def showFVal : FVal → String
   | .classObj c => s!"C{c}"
   | .obj c fs ex =>
     -- canonical: fields sorted by attribute name id
-    let fs := (fs.toArray.qsort (fun a b => a.1 < b.1)).toList
+    let fs := ((fs.filter (fun p => match p.2 with | .unset => false | _ => true)).toArray.qsort (fun a b => a.1 < b.1)).toList
     s!"O{c}" ++ "{" ++ ";".intercalate (fs.map fun (k, v) => s!"{k}=" ++ showFVal v) ++ "}[" ++
       ",".intercalate (ex.map showAvpObj) ++ "]"
 
